@@ -155,6 +155,23 @@ class RemoteProxy(BaseProxy):
             self._handle_remote_requests(),
             name="handle remote requests for ???"
         )
+        channel._receiver_task.add_done_callback(self._receiver_done)
+
+    def _receiver_done(self, receiver_task: asyncio.Task[None]) -> None:
+        """Called when the channel stops receiving. The channel itself
+        only tells the requests that are waiting for a reply about a
+        connection that was closed cleanly. If the connection broke in
+        another way (e.g. it was reset because the simulator's process
+        got killed), they would wait forever, so fail them here.
+        """
+        if receiver_task.cancelled():
+            return  # We have closed the channel ourselves.
+        error = receiver_task.exception()
+        if error is None:
+            return
+        for future in self._channel._outgoing_request_futures.values():
+            if not future.done():
+                future.set_exception(error)
 
     async def _handle_remote_requests(self) -> None:
         try:
